@@ -5,6 +5,7 @@ import (
 	"math/big"
 	"math/rand"
 	"sort"
+	"time"
 
 	"verif/kit"
 
@@ -766,19 +767,32 @@ func (s *seqDriver) opReorg(step int) {
 }
 
 // opBatched fires several head events (and asynchronous submissions) back to back without waiting
-// for the pool, then waits once. The scheduler may merge them into one reset from the first old
-// head to the last new head.
+// for the pool, then waits once. The scheduler may merge waiting resets into one from the oldest
+// old head to the newest new head. In the gated variant the first reset is held up inside the
+// harness chain's StateAt until the pool's event loop has handed over all later events, so that
+// events 2..k are merged for certain.
 func (s *seqDriver) opBatched(step int) {
 	start := s.fc.headInfo()
-	np, nq := s.pool.Stats()
+	gated := !s.conc && s.r.Intn(2) == 0
 	k := 2 + s.r.Intn(3)
+	if gated {
+		k = 3 + s.r.Intn(2)
+	}
 	var note []string
 	var heads []*blockInfo
+	forkAt := map[int]bool{}
 	// plan first (needs pool reads), fire afterwards in one burst
 	cand := s.pendingPick()
 	tip := start
 	for i := 0; i < k; i++ {
-		switch x := s.r.Intn(10); {
+		x := s.r.Intn(10)
+		if gated && i == 0 && s.r.Intn(10) < 7 {
+			x = 0 // the held event mines what the pool offers ...
+		}
+		if gated && i == 1 && s.r.Intn(10) < 7 {
+			x = 9 // ... and the first merged event switches away from it
+		}
+		switch {
 		case x < 4: // next block takes a part of what was pending at the start
 			cut := 0
 			if len(cand) > 0 {
@@ -802,12 +816,13 @@ func (s *seqDriver) opBatched(step int) {
 			tip = s.buildBranch(base, d+s.r.Intn(2), s.branchTxs(tip, base))
 			note = append(note, fmt.Sprintf("fork@#%d %s", base.block.NumberU64(), blockDesc(tip)))
 			s.feat("batched-fork")
+			forkAt[i] = true
 		}
 		heads = append(heads, tip)
 	}
 	var specs []*txSpec
 	var txs []*types.Transaction
-	if s.r.Intn(2) == 0 {
+	if !gated && s.r.Intn(2) == 0 {
 		next := map[int]uint64{}
 		for i := 0; i < 1+s.r.Intn(3); i++ {
 			sp := s.genSpec(next)
@@ -818,22 +833,54 @@ func (s *seqDriver) opBatched(step int) {
 			txs = append(txs, s.mk(sp))
 		}
 	}
-	exp := s.reorgExpectations(start, tip)
 	s.c.Count("op_batched", 1)
 	s.c.Count("batched_head_events", len(heads))
 	s.feat("batched")
-	at := -1
-	if len(txs) > 0 {
-		at = s.r.Intn(len(heads))
+	var before *view
+	var locals []common.Address
+	if !s.conc {
+		pend, queued := s.pool.Content()
+		before = &view{pend: pend, queued: queued}
+		for _, t := range pend {
+			before.np += len(t)
+		}
+		for _, t := range queued {
+			before.nq += len(t)
+		}
+		locals = s.pool.Locals()
 	}
-	for i, hd := range heads {
-		s.fc.setHead(hd)
-		if i == at {
-			errs := s.pool.AddRemotes(txs) // verdict depends on which head the pool has reached: not judged
-			for j, sp := range specs {
-				sp.Res = errName(errs[j])
+	resets0 := s.fc.poolResets()
+	if gated {
+		note = append([]string{"GATED: first reset held until the others were queued"}, note...)
+		entered := s.fc.hold()
+		s.fc.setHead(heads[0])
+		select {
+		case <-entered:
+		case <-time.After(30 * time.Second):
+			s.fc.release()
+			panic("c20 harness: the pool did not ask for the state of the first batched head")
+		}
+		for _, hd := range heads[1:] {
+			s.fc.setHead(hd)
+		}
+		s.fc.drainHeadEvents() // every later reset request is now waiting in the scheduler
+		s.fc.release()
+		s.c.Count("batched_gated", 1)
+		s.feat("batched-gated")
+	} else {
+		at := -1
+		if len(txs) > 0 {
+			at = s.r.Intn(len(heads))
+		}
+		for i, hd := range heads {
+			s.fc.setHead(hd)
+			if i == at {
+				errs := s.pool.AddRemotes(txs) // verdict depends on which head the pool has reached: not judged
+				for j, sp := range specs {
+					sp.Res = errName(errs[j])
+				}
+				s.feat("batched-with-submission")
 			}
-			s.feat("batched-with-submission")
 		}
 	}
 	s.log(opRec{Op: "batched-heads", Arg: note, Txs: specs}) // after the verdicts have been filled in
@@ -841,10 +888,134 @@ func (s *seqDriver) opBatched(step int) {
 		return
 	}
 	s.fc.quiesce(s.pool)
+	resets := int(s.fc.poolResets() - resets0)
+	if resets < len(heads) {
+		s.c.Count("batched_merged_batches", 1)
+		s.c.Count("batched_events_merged_away", len(heads)-resets)
+		s.feat("batched-merged")
+	}
+	if gated {
+		if resets != 2 {
+			s.c.Count("batched_gated_unexpected_reset_count", 1)
+		}
+		// the merged segment is heads[1:], running from old head heads[0]
+		if forkAt[1] && len(s.branchTxs(heads[0], s.commonAncestor(heads[0], heads[1]))) > 0 {
+			s.c.Count("batched_merged_forkswitch_first", 1)
+			s.feat("batched-merged-forkswitch-first")
+		}
+	}
 	v := s.checkQuiescent(fmt.Sprintf("step %d after %d batched head events", step, len(heads)), checkOpts{afterRun: true})
-	_, _, _ = exp, np, nq // merged or separate resets legitimately differ in what is re-injected: views only
 	if v != nil {
+		s.checkBatchedReinjection(step, start, heads, txs, before, locals, v, gated)
+	}
+	if v != nil && !s.isBad() {
 		s.absSig(v)
+	}
+}
+
+// checkBatchedReinjection: whatever way the scheduler cut the head events h1..hk into resets
+// (each reset runs from the old head of its first event to the new head of its last one), a
+// transaction t of the chain that was canonical before the batch which is not in the final chain
+// must be pooled at the end, provided that at EVERY head from the first one whose chain lacks t
+// onwards t is either in that head's chain or admissible there (nonce, balance, gas limit, price):
+// the reset that first loses t re-injects it against that reset's new head, and every later reset
+// keeps an admissible transaction. Heads where t would be refused or filtered out (a legitimate
+// difference between merged and separate resets: a merged reset never sees that head) excuse t.
+// Limits are excluded by a bound on everything that can be in the pool at any moment of the batch.
+func (s *seqDriver) checkBatchedReinjection(step int, start *blockInfo, heads []*blockInfo, submitted []*types.Transaction, before *view, locals []common.Address, v *view, gated bool) {
+	cfg := s.cfg
+	base := start
+	for _, hd := range heads {
+		base = s.commonAncestor(base, hd)
+	}
+	sets := make([]map[common.Hash]bool, len(heads))
+	union := map[common.Hash]*types.Transaction{}
+	for j, hd := range heads {
+		sets[j] = map[common.Hash]bool{}
+		for _, tx := range s.branchTxs(hd, base) {
+			sets[j][tx.Hash()] = true
+			union[tx.Hash()] = tx
+		}
+	}
+	startTxs := s.branchTxs(start, base)
+	for _, tx := range startTxs {
+		union[tx.Hash()] = tx
+	}
+	// upper bounds on the pool content at any moment of the batch, in total and per account
+	total := before.np + before.nq + len(union) + len(submitted)
+	per := map[common.Address]int{}
+	for a, t := range before.pend {
+		per[a] += len(t)
+	}
+	for a, t := range before.queued {
+		per[a] += len(t)
+	}
+	subSlot := map[string]bool{}
+	for _, tx := range submitted {
+		if from, err := types.Sender(s.sig, tx); err == nil {
+			per[from]++
+			subSlot[fmt.Sprintf("%x/%d", from, tx.Nonce())] = true
+		}
+	}
+	for _, tx := range union {
+		from, _ := types.Sender(s.sig, tx)
+		per[from]++
+	}
+	last := len(heads) - 1
+	gp := s.gp()
+	for _, tx := range startTxs {
+		if sets[last][tx.Hash()] {
+			continue
+		}
+		from, _ := types.Sender(s.sig, tx)
+		first := 0
+		for sets[first][tx.Hash()] {
+			first++
+		}
+		excuse := ""
+		for j := first; j <= last && excuse == ""; j++ {
+			if sets[j][tx.Hash()] {
+				continue
+			}
+			t := heads[j].truth[from]
+			switch {
+			case tx.Nonce() < t.nonce:
+				excuse = "stale"
+			case tx.Cost().Cmp(t.bal) > 0:
+				excuse = "unaffordable"
+			case tx.Gas() > heads[j].block.GasLimit():
+				excuse = "over-gaslimit"
+			case tx.GasPrice().Int64() < gp && !s.isLocal(locals, from):
+				excuse = "below-pool-price"
+			}
+			if excuse != "" && j < last {
+				excuse += "-at-intermediate-head"
+			}
+		}
+		if excuse != "" {
+			s.c.Count("batched_excused_"+excuse, 1)
+			continue
+		}
+		if uint64(total) >= cfg.GlobalSlots+cfg.GlobalQueue || uint64(total) > cfg.GlobalSlots || uint64(total) > cfg.GlobalQueue ||
+			(!s.isLocal(locals, from) && uint64(per[from]) > cfg.AccountQueue) {
+			s.c.Count("batched_expectations_skipped_limits", 1)
+			continue
+		}
+		s.c.Evals(1)
+		s.c.Count("batched_repooled_checked", 1)
+		if gated && first >= 1 {
+			s.c.Count("batched_repooled_checked_merged_segment", 1)
+		}
+		if _, pooled := v.where[tx.Hash()]; pooled || subSlot[fmt.Sprintf("%x/%d", from, tx.Nonce())] {
+			continue
+		}
+		how := "ungated"
+		if gated {
+			how = fmt.Sprintf("gated: reset 1 = event 1, reset 2 = events 2..%d merged", len(heads))
+		}
+		s.violation("batched-reorg-tx-not-repooled", fmt.Sprintf("step %d, %d batched head events (%s): tx %x (account %d nonce %d price %v) was in the chain canonical before the batch, left it with event %d, is in no later canonical chain it could have stayed in, is admissible at every head since (final head: nonce %d balance %v gas limit %d) and no limit can have displaced it (at most %d transactions around), but it is not in the pool",
+			step, len(heads), how, tx.Hash().Bytes()[:4], s.idx[from], tx.Nonce(), tx.GasPrice(), first+1, heads[last].truth[from].nonce, heads[last].truth[from].bal, heads[last].block.GasLimit(), total))
+		return
 	}
 }
 
